@@ -31,6 +31,7 @@ EXHAUSTIVE = True  # the set_thresholds space (see RULE); the configuration muta
 THEOREMS = [
     "PEval.C15." + t
     for t in [
+        "is3d_agrees_with_source", "readKeys_match_source",
         "setThresholds_shape", "setThresholds_shape_flat", "setThresholds_shape_nested", "setThresholds_numeric",
         "no_pad_no_truncate", "no_pad_no_truncate_flat", "no_pad_no_truncate_nested", "setThresholds_idem",
         "setThresholds_accepts_iff_flat", "setThresholds_accepts_iff_nested", "rejects_malformed",
